@@ -55,7 +55,8 @@ def closure_cases(rng):
     a, b = U.scalars[0], U.scalars[1]
     out = []
     vecs = [("x", x, list(x)), ("x|sparse", x, [a] + list(x)), ("x|perm", x, [x[2], x[0], x[1]]),
-            ("w[1:4]|inw", w[1:4], list(w)), ("x[::-1]|own", x[::-1], list(x[::-1]))]
+            ("w[1:4]|inw", w[1:4], list(w)), ("x[::-1]|own", x[::-1], list(x[::-1])),
+            ("x|span", x, [x[0], a, x[2], x[1]]), ("x|span2", x, [x[1], x[0], b, x[2]])]
     for vn, v, V in vecs:
         for k in (1, 2, 3, 0.5, -1, 2.5, 0, -2, 1.5, -0.5, 4):
             node = Vc.VectorPowerSum(v, k)
